@@ -201,6 +201,24 @@ def setdefault (s : OD K V) (k : K) (dflt : V) : Res (OD K V) V :=
   | some v => ({ s with keys := if k ∈ s.keys then s.keys else s.keys ++ [k] }, .ok v)
   | none => ({ d := dset s.d k dflt, keys := if k ∈ s.keys then s.keys else s.keys ++ [k] }, .ok dflt)
 
+/-- unpickling at protocol >= 2 (also copy.copy / copy.deepcopy): `odict.__new__` (empty `_keys`), then the
+dict items are stored one by one through `__setitem__`, then `__setstate__(items)` = `__init__(items)`
+stores them once more -/
+def unpickle (s : OD K V) : Except Err (OD K V) :=
+  match s.items with
+  | .ok l => .ok (update (update empty l) l)
+  | .error e => .error e
+
+/-- unpickling at protocol 0 or 1: `copyreg._reconstructor` fills the dict part directly from `dict(self)`
+— neither `odict.__new__` nor `__setitem__` runs, there is no `_keys` yet — and then, only if the state
+`items()` is not empty, `__setstate__(items)` = `__init__(items)`, whose first `__setitem__` creates `_keys`.
+An empty odict comes back without `_keys`: every later use raises AttributeError (defect D39f) -/
+def unpickleLegacy (s : OD K V) : Except Err (OD K V) :=
+  match s.items with
+  | .ok [] => .error .AttributeError
+  | .ok l => .ok (update ⟨l, []⟩ l)
+  | .error e => .error e
+
 /-- inherited `dict.__eq__`: same length and every item of `self` is an item of `other` -/
 def eq [DecidableEq V] (s o : OD K V) : Bool :=
   s.d.length == o.d.length && s.d.all (fun p => decide (dget o.d p.1 = some p.2))
@@ -217,6 +235,8 @@ inductive Op (K V : Type)
   | pop (k : K) (dflt : Option V) | popitem | reorder (other : OD K V) | reorderBad
   | setdefault (k : K) (dflt : V) | update (ps : List (K × V)) | eq (other : OD K V)
   | reversed | ior (ps : List (K × V)) | or (ps : List (K × V))   -- `reversed(d)`, `d |= other`, `d | other` (fix D39e)
+  | pickle         -- pickle round trip at protocol >= 2, copy.copy, copy.deepcopy
+  | pickleLegacy   -- pickle round trip at protocol 0 or 1
   deriving Repr
 
 inductive Out (K V : Type)
@@ -268,6 +288,8 @@ def step (s : OD K V) : Op K V → OD K V × Out K V
   | .reversed => (s, .keys s.keys.reverse)
   | .ior ps => (s.update ps, .none)
   | .or ps => (s, match s.copy with | .ok c => .obj (c.update ps) | .error e => .err e)
+  | .pickle => (s, .ofObj s.unpickle)
+  | .pickleLegacy => (s, .ofObj s.unpickleLegacy)
 
 end OD
 
@@ -349,6 +371,26 @@ def reorder (s : OD K V) (other : OD K V) : Res (OD K V) Unit :=
   | .ok o => OD.reorder s o
   | .error e => (s, .error e)
 
+/-- unpickling a lodict at protocol >= 2: items stored through `lodict.__setitem__`, then `lodict.__init__(items)` -/
+def unpickle (s : OD K V) : Except Err (OD K V) :=
+  match s.items with
+  | .ok l =>
+    (match update lower (l.foldl (fun t p => setitem lower t p.1 p.2) OD.empty) l with
+     | (c, .ok ()) => .ok c
+     | (_, .error e) => .error e)
+  | .error e => .error e
+
+/-- unpickling a lodict at protocol 0 or 1 (see `OD.unpickleLegacy`): dict part filled directly, then
+`lodict.__init__(items)` = `self.update(items)` -/
+def unpickleLegacy (s : OD K V) : Except Err (OD K V) :=
+  match s.items with
+  | .ok [] => .error .AttributeError
+  | .ok l =>
+    (match update lower ⟨l, []⟩ l with
+     | (c, .ok ()) => .ok c
+     | (_, .error e) => .error e)
+  | .error e => .error e
+
 variable [DecidableEq V]
 
 /-- one call on a `lodict` -/
@@ -380,6 +422,8 @@ def step (s : OD K V) : Op K V → OD K V × Out K V
   | .or ps => (s, match copy lower s with
       | .ok c => (match update lower c ps with | (c', .ok ()) => .obj c' | (_, .error e) => .err e)
       | .error e => .err e)
+  | .pickle => (s, .ofObj (unpickle lower s))
+  | .pickleLegacy => (s, .ofObj (unpickleLegacy lower s))
 
 end LOD
 
